@@ -804,3 +804,56 @@ def _sub_bodies(st: ast.stmt) -> list[list[ast.stmt]]:
         for h in st.handlers:
             out.append(h.body)
     return out
+
+
+# ---------------------------------------------------------------------- temporaries
+def single_defs(fnode) -> dict[str, ast.expr]:
+    """Locals of a function that are bound exactly once, by a plain ``name = <expr>`` statement (not a parameter, not
+    global/nonlocal, not a loop / with / except / walrus target, not augmented).  Such a name is a *temporary*: every
+    use of it denotes the assigned expression, so shape rules look through it (`expand`)."""
+    if isinstance(fnode, ast.Lambda):
+        return {}
+    params = {a.arg for a in fnode.args.posonlyargs + fnode.args.args + fnode.args.kwonlyargs}
+    if fnode.args.vararg:
+        params.add(fnode.args.vararg.arg)
+    if fnode.args.kwarg:
+        params.add(fnode.args.kwarg.arg)
+    stores: dict[str, int] = {}
+    plain: dict[str, ast.expr] = {}
+    banned = set(params)
+    for n in walk_own(fnode):
+        if isinstance(n, (ast.Global, ast.Nonlocal)):
+            banned.update(n.names)
+        elif isinstance(n, ast.Name) and isinstance(n.ctx, (ast.Store, ast.Del)):
+            stores[n.id] = stores.get(n.id, 0) + 1
+        elif isinstance(n, ast.ExceptHandler) and n.name:
+            banned.add(n.name)
+        elif isinstance(n, (ast.FunctionDef, ast.AsyncFunctionDef, ast.ClassDef)) and n is not fnode:
+            banned.add(n.name)
+        if isinstance(n, ast.Assign) and len(n.targets) == 1 and isinstance(n.targets[0], ast.Name):
+            plain[n.targets[0].id] = n.value
+        elif isinstance(n, ast.AugAssign) and isinstance(n.target, ast.Name):
+            banned.add(n.target.id)
+    return {k: v for k, v in plain.items() if stores.get(k) == 1 and k not in banned}
+
+
+def expand(fnode, e: ast.AST, depth: int = 12, only=None):
+    """Copy of expression ``e`` with every temporary of the enclosing function (see `single_defs`) replaced by the
+    expression it was assigned, recursively.  ``only``: optional predicate on the name."""
+    import copy
+
+    defs = single_defs(fnode)
+
+    class _Sub(ast.NodeTransformer):
+        def __init__(self, d):
+            self.d = d
+
+        def visit_Name(self, n):
+            if isinstance(n.ctx, ast.Load) and n.id in defs and self.d > 0 and (only is None or only(n.id)):
+                return _Sub(self.d - 1).visit(copy.deepcopy(defs[n.id]))
+            return n
+
+        def visit_Lambda(self, n):
+            return n
+
+    return _Sub(depth).visit(copy.deepcopy(e))
